@@ -132,92 +132,97 @@ def replay_chunk(args):
                     break
             # CLI: -x P  vs  [codebase] exclude = [P]
             if cli_every and si % cli_every == 0:
-                pats, excluded = rnd.choice(exclude_lists(m, sc, rnd))
-                dbs = {}
-                for p in plats:
-                    dbp = os.path.join(base, f"db_{p}.json")
-                    with open(dbp, "w") as f:
-                        json.dump(m.database(byp[p], rnd), f)
-                    dbs[p] = dbp
-                plain = os.path.join(base, "plain.toml")
-                withx = os.path.join(base, "withx.toml")
-                body = "".join(f'[platform.{p}]\ncommands = "{dbs[p]}"\n\n' for p in plats)
-                open(plain, "w").write(body)
-                open(withx, "w").write("[codebase]\nexclude = " + json.dumps(pats) + "\n\n" + body)
-                xargs = [a for p in pats for a in ("-x", p)]
-                want = {k: v for k, v in expected_setmap(m, exp, plats, excluded).items() if v}
-                outs = []
-                for argv in (["-R", "summary"] + xargs + [plain], ["-R", "summary", withx]):
-                    stats["evals"] += 1
-                    rc, out, err = C06.cli("codebasin", argv, m.root)
-                    rows, tot = C06.parse_summary(out)
-                    got = {k: v[0] for k, v in rows.items() if v[0]}
-                    outs.append(got)
-                    if rc != 0 or got != want:
-                        fails.append(dict(layer="G", tags=sorted(tags | {"cli"}), symptom="cli-exclusion-differs",
-                                          detail=f"codebasin {' '.join(argv[:-1])}: rc={rc} rows={ {tuple(sorted(k)): v for k, v in got.items()} } "
-                                                 f"expected { {tuple(sorted(k)): v for k, v in want.items()} }", case=sc))
-                        break
-                # -x together with [codebase] exclude: the union applies, in all three front ends
-                if len(pats) >= 2 and not any(p.startswith("!") for p in pats):
-                    half = os.path.join(base, "half.toml")
-                    open(half, "w").write("[codebase]\nexclude = " + json.dumps(pats[:1]) + "\n\n" + body)
-                    xrest = [a for p in pats[1:] for a in ("-x", p)]
-                    stats["evals"] += 2
-                    rc, out, err = C06.cli("codebasin", ["-R", "summary"] + xrest + [half], m.root)
-                    rows, tot = C06.parse_summary(out)
-                    got = {k: v[0] for k, v in rows.items() if v[0]}
-                    if rc != 0 or got != want:
-                        fails.append(dict(layer="G", tags=sorted(tags | {"cli"}), symptom="cli-exclusion-differs",
-                                          detail=f"codebasin -x {pats[1:]} + toml exclude {pats[:1]}: rows { {tuple(sorted(k)): v for k, v in got.items()} } "
-                                                 f"expected { {tuple(sorted(k)): v for k, v in want.items()} }", case=sc))
-                    r3 = C06.cli("codebasin.tree", xrest + [half], m.root)
-                    r4 = C06.cli("codebasin.tree", [withx], m.root)
-                    if r3[0] != 0 or r3[1] != r4[1]:
-                        fails.append(dict(layer="G", tags=sorted(tags | {"cli"}), symptom="cli-exclusion-differs",
-                                          detail=f"cbi-tree -x {pats[1:]} + toml exclude {pats[:1]} differs from toml exclude {pats}:\n{r3[1][-300:]}\n---\n{r4[1][-300:]}",
-                                          case=sc))
-                # cbi-tree -x vs toml: identical outputs
-                stats["evals"] += 1
-                r1 = C06.cli("codebasin.tree", xargs + [plain], m.root)
-                r2 = C06.cli("codebasin.tree", [withx], m.root)
-                if r1[0] != 0 or r2[0] != 0 or r1[1] != r2[1]:
-                    fails.append(dict(layer="G", tags=sorted(tags | {"cli"}), symptom="cli-exclusion-differs",
-                                      detail=f"cbi-tree -x {pats} and [codebase] exclude differ:\n{r1[1][-400:]}\n---\n{r2[1][-400:]}", case=sc))
-                else:
-                    legend, rows = C06.parse_tree(r1[1])
-                    for f in excluded:
-                        if tuple(rel(m, f).split(os.sep)) in rows:
+                lists = exclude_lists(m, sc, rnd)
+                # two lists per scenario: the random subset of files, and one of the other kinds in turn
+                import zlib
+                kinds = lists[:-1] or lists
+                picks = [lists[-1], kinds[zlib.crc32(repr(sc["ents"]).encode()) % len(kinds)]]
+                for pats, excluded in picks:
+                    dbs = {}
+                    for p in plats:
+                        dbp = os.path.join(base, f"db_{p}.json")
+                        with open(dbp, "w") as f:
+                            json.dump(m.database(byp[p], rnd), f)
+                        dbs[p] = dbp
+                    plain = os.path.join(base, "plain.toml")
+                    withx = os.path.join(base, "withx.toml")
+                    body = "".join(f'[platform.{p}]\ncommands = "{dbs[p]}"\n\n' for p in plats)
+                    open(plain, "w").write(body)
+                    open(withx, "w").write("[codebase]\nexclude = " + json.dumps(pats) + "\n\n" + body)
+                    xargs = [a for p in pats for a in ("-x", p)]
+                    want = {k: v for k, v in expected_setmap(m, exp, plats, excluded).items() if v}
+                    outs = []
+                    for argv in (["-R", "summary"] + xargs + [plain], ["-R", "summary", withx]):
+                        stats["evals"] += 1
+                        rc, out, err = C06.cli("codebasin", argv, m.root)
+                        rows, tot = C06.parse_summary(out)
+                        got = {k: v[0] for k, v in rows.items() if v[0]}
+                        outs.append(got)
+                        if rc != 0 or got != want:
                             fails.append(dict(layer="G", tags=sorted(tags | {"cli"}), symptom="cli-exclusion-differs",
-                                              detail=f"cbi-tree -x {pats} still lists {rel(m, f)}", case=sc))
+                                              detail=f"codebasin {' '.join(argv[:-1])}: rc={rc} rows={ {tuple(sorted(k)): v for k, v in got.items()} } "
+                                                     f"expected { {tuple(sorted(k)): v for k, v in want.items()} }", case=sc))
                             break
-                # cbi-cov -x: excluded files are not listed
-                p0 = plats[0]
-                covp = os.path.join(base, "cov.json")
-                stats["evals"] += 1
-                rc, out, err = C06.cli("codebasin.coverage", ["compute", "-S", m.root, "-o", covp] + xargs + [dbs[p0]], m.root)
-                if rc != 0:
-                    fails.append(dict(layer="G", tags=sorted(tags | {"cli"}), symptom="cli-exclusion-differs",
-                                      detail=f"cbi-cov -x {pats} exited {rc}: {err[-300:]}", case=sc))
-                else:
-                    cov = {e["file"]: e for e in json.load(open(covp))}
-                    want_files = {rel(m, f) for f in m.paths if inside(m, f) and f not in excluded}
-                    # symbolic links are listed as files iff their target is a (non-excluded) member
-                    for ln in ("zz_link_in.h", os.path.join("src", "zz_link_out.h")):
-                        lp = os.path.join(m.root, ln)
-                        if os.path.islink(lp):
-                            tgt = os.path.realpath(lp)
-                            if tgt in {m.paths[f] for f in m.paths if inside(m, f) and f not in excluded}:
-                                want_files.add(ln)
-                    bad = set(cov) != want_files
-                    for f in m.paths:
-                        if inside(m, f) and f not in excluded and rel(m, f) in cov:
-                            if set(cov[rel(m, f)]["used_lines"]) != exp[p0][f]:
-                                bad = True
-                    if bad:
+                    # -x together with [codebase] exclude: the union applies, in all three front ends
+                    if len(pats) >= 2 and not any(p.startswith("!") for p in pats):
+                        half = os.path.join(base, "half.toml")
+                        open(half, "w").write("[codebase]\nexclude = " + json.dumps(pats[:1]) + "\n\n" + body)
+                        xrest = [a for p in pats[1:] for a in ("-x", p)]
+                        stats["evals"] += 2
+                        rc, out, err = C06.cli("codebasin", ["-R", "summary"] + xrest + [half], m.root)
+                        rows, tot = C06.parse_summary(out)
+                        got = {k: v[0] for k, v in rows.items() if v[0]}
+                        if rc != 0 or got != want:
+                            fails.append(dict(layer="G", tags=sorted(tags | {"cli"}), symptom="cli-exclusion-differs",
+                                              detail=f"codebasin -x {pats[1:]} + toml exclude {pats[:1]}: rows { {tuple(sorted(k)): v for k, v in got.items()} } "
+                                                     f"expected { {tuple(sorted(k)): v for k, v in want.items()} }", case=sc))
+                        r3 = C06.cli("codebasin.tree", xrest + [half], m.root)
+                        r4 = C06.cli("codebasin.tree", [withx], m.root)
+                        if r3[0] != 0 or r3[1] != r4[1]:
+                            fails.append(dict(layer="G", tags=sorted(tags | {"cli"}), symptom="cli-exclusion-differs",
+                                              detail=f"cbi-tree -x {pats[1:]} + toml exclude {pats[:1]} differs from toml exclude {pats}:\n{r3[1][-300:]}\n---\n{r4[1][-300:]}",
+                                              case=sc))
+                    # cbi-tree -x vs toml: identical outputs
+                    stats["evals"] += 1
+                    r1 = C06.cli("codebasin.tree", xargs + [plain], m.root)
+                    r2 = C06.cli("codebasin.tree", [withx], m.root)
+                    if r1[0] != 0 or r2[0] != 0 or r1[1] != r2[1]:
                         fails.append(dict(layer="G", tags=sorted(tags | {"cli"}), symptom="cli-exclusion-differs",
-                                          detail=f"cbi-cov -x {pats}: files {sorted(cov)} expected {sorted(want_files)} (or used lines differ)",
-                                          case=sc))
+                                          detail=f"cbi-tree -x {pats} and [codebase] exclude differ:\n{r1[1][-400:]}\n---\n{r2[1][-400:]}", case=sc))
+                    else:
+                        legend, rows = C06.parse_tree(r1[1])
+                        for f in excluded:
+                            if tuple(rel(m, f).split(os.sep)) in rows:
+                                fails.append(dict(layer="G", tags=sorted(tags | {"cli"}), symptom="cli-exclusion-differs",
+                                                  detail=f"cbi-tree -x {pats} still lists {rel(m, f)}", case=sc))
+                                break
+                    # cbi-cov -x: excluded files are not listed
+                    p0 = plats[0]
+                    covp = os.path.join(base, "cov.json")
+                    stats["evals"] += 1
+                    rc, out, err = C06.cli("codebasin.coverage", ["compute", "-S", m.root, "-o", covp] + xargs + [dbs[p0]], m.root)
+                    if rc != 0:
+                        fails.append(dict(layer="G", tags=sorted(tags | {"cli"}), symptom="cli-exclusion-differs",
+                                          detail=f"cbi-cov -x {pats} exited {rc}: {err[-300:]}", case=sc))
+                    else:
+                        cov = {e["file"]: e for e in json.load(open(covp))}
+                        want_files = {rel(m, f) for f in m.paths if inside(m, f) and f not in excluded}
+                        # symbolic links are listed as files iff their target is a (non-excluded) member
+                        for ln in ("zz_link_in.h", os.path.join("src", "zz_link_out.h")):
+                            lp = os.path.join(m.root, ln)
+                            if os.path.islink(lp):
+                                tgt = os.path.realpath(lp)
+                                if tgt in {m.paths[f] for f in m.paths if inside(m, f) and f not in excluded}:
+                                    want_files.add(ln)
+                        bad = set(cov) != want_files
+                        for f in m.paths:
+                            if inside(m, f) and f not in excluded and rel(m, f) in cov:
+                                if set(cov[rel(m, f)]["used_lines"]) != exp[p0][f]:
+                                    bad = True
+                        if bad:
+                            fails.append(dict(layer="G", tags=sorted(tags | {"cli"}), symptom="cli-exclusion-differs",
+                                              detail=f"cbi-cov -x {pats}: files {sorted(cov)} expected {sorted(want_files)} (or used lines differ)",
+                                              case=sc))
         finally:
             shutil.rmtree(base, ignore_errors=True)
     return fails, stats
